@@ -186,6 +186,30 @@ package immutable
 //@     set switched = true
 //@   ensures asked && ln > 0 ==> switched
 
+// ================================================================ C03: out-of-order merge
+//@ prop C03
+// The out-of-order inputs of a merge are deleted only after the merged files were produced AND installed in
+// place of the old ordered files; on any failure both input sets stay (rows that live only in the
+// out-of-order files are never lost).
+//@ func (*mergeTool).merge$2
+//@   ghost exe bool = false
+//@   ghost rep bool = false
+//@   call (*mergeTool).execute
+//@     set exe = (ret1 == nil)
+//@   call .replaceMergedFiles
+//@     set rep = (ret0 == nil)
+//@   call .deleteUnorderedFiles
+//@     requires [after_replace] exe && rep
+//@ func (*mergeTool).mergeSelfStreamMode$2
+//@   ghost exe bool = false
+//@   ghost rep bool = false
+//@   call (*mergeTool).execute
+//@     set exe = (ret1 == nil)
+//@   call .ReplaceFiles
+//@     set rep = (ret0 == nil)
+//@   call .deleteUnorderedFiles
+//@     requires [after_replace] exe && rep
+
 // ================================================================ C01: recovery never reuses the name of an existing file
 //@ prop C01
 // The sequence counter restored at open (and used to name the files written by the recovery flush) is at
